@@ -124,6 +124,12 @@ _add("Falcun", "Falcun", {}, ["pwc", "gnb"])
 for m in ("random", "diversity", "representativity"):
     _add(f"RegressionTreeBasedAL:{m}", "RegressionTreeBasedAL", {"method": m}, ["tree"], task="reg")
 
+# the two pool wrappers: subjects of the frame monitor (C05) and of the twin worlds (C06) only -- not of C14
+# (SubSamplingWrapper returns at most its sub-sample size by design, the parallel wrapper needs batch_size=1)
+_add("SubSamplingWrapper:US", "SubSamplingWrapper", {"max_candidates": 0.5}, ["pwc", "gnb"], wrap="UncertaintySampling:entropy", no14=True, rows=False)
+_add("SubSamplingWrapper:excl", "SubSamplingWrapper", {"max_candidates": 3, "exclude_non_subsample": True}, ["pwc"], wrap="ProbabilisticAL", no14=True, rows=False)
+_add("ParallelWrapper:US", "ParallelUtilityEstimationWrapper", {"n_jobs": 1}, ["pwc"], wrap="UncertaintySampling:margin_sampling", no14=True, batch1=True, rows=False)
+
 # strategies that need a mapping from candidates to X (feature-row candidates are refused: MappingError)
 for _k, _e in _E.items():
     if _e["cls"] in ("Quire", "TypiClust", "ValueOfInformationEER", "DiscriminativeAL", "ProbCover", "CostEmbeddingAL"):
@@ -145,6 +151,9 @@ def strategy_class(name):
 def build_strategy(entry_key, seed, overrides=None):
     e = ENTRIES[entry_key]
     kw = dict(e["init"])
+    if e["flags"].get("wrap"):
+        inner_seed = seed if isinstance(seed, int) else 0
+        kw["query_strategy"] = build_strategy(e["flags"]["wrap"], inner_seed)
     # deep-ish copy of dict params so that caller-owned dicts are fresh per object
     kw = {k: (dict(v) if isinstance(v, dict) else (list(v) if isinstance(v, list) else v)) for k, v in kw.items()}
     if overrides:
@@ -154,7 +163,12 @@ def build_strategy(entry_key, seed, overrides=None):
 
 
 def query_params(entry_key):
-    return inspect.signature(strategy_class(ENTRIES[entry_key]["cls"]).query).parameters
+    e = ENTRIES[entry_key]
+    if e["flags"].get("wrap"):
+        # the wrappers forward **query_kwargs to the wrapped strategy
+        ps = dict(inspect.signature(strategy_class(ENTRIES[e["flags"]["wrap"]]["cls"]).query).parameters)
+        return ps
+    return inspect.signature(strategy_class(e["cls"]).query).parameters
 
 
 def model_arg(entry_key):
